@@ -82,9 +82,11 @@ class GeventWorker(AsyncWorker):
             server.start()
             servers.append(server)
 
+        # heartbeat at least twice per timeout (the arbiter hands us timeout / 2)
+        interval = min(1.0, self.timeout or 1.0)
         while self.alive:
             self.notify()
-            gevent.sleep(1.0)
+            gevent.sleep(interval)
 
         try:
             # Stop accepting requests
